@@ -228,7 +228,13 @@ func methodSignature(method *ast.Field) string {
 	}
 
 	params := formatFieldList(funcType.Params)
-	results := formatFieldList(funcType.Results)
+	//the results are declared without their names: the method body declares
+	//its own locals (err, resp_, ...) and must not collide with result names
+	var resultTypes []string
+	for _, r := range resultValues(funcType.Results) {
+		resultTypes = append(resultTypes, exprToString(r.typ))
+	}
+	results := strings.Join(resultTypes, ", ")
 
 	if results != "" {
 		return fmt.Sprintf("%s(%s) (%s)", funcName, params, results)
